@@ -13,6 +13,10 @@ THRESHOLDS_QUICK = [10.0, 3.0, float('nan'), -1.0]
 THRESHOLDS_THOROUGH = [10.0, 3.0, 1.0, 21.0, float('nan'), -1.0, float('inf')]
 
 
+EN_QUICK = ['zero', 'one', 'nine', 'ten', 'twenty', 'hundred', 'million', 'and', 'point', 'first', 'second', 'twentieth',
+            'o', 'xyz', 'ah', 'thirds']
+
+
 def occ_list(v):
     out = []
     for o in v.elems:
@@ -32,6 +36,17 @@ def value_lt(val, t):
         return z3.BoolVal(False)
     if isinstance(val, Choice):
         return z3.Or(*[z3.And(ZB(c) if not isinstance(c, bool) else z3.BoolVal(c), value_lt(v, t)) for c, v in val.alts])
+    if isinstance(val, F64Recip) and t > 0:
+        # 1/x < t  <=>  x > 1/t for x > 0; x == 0 gives +inf (never below t).  x is an exact integer here, so the rounded
+        # 1/t decides correctly unless x == 1/t exactly, which needs 1/t integral: then the float is exact as well
+        def cmpc(op, c):
+            r_ = val.inner.compare_const(op, c)
+            if isinstance(r_, tuple):
+                return z3.And(r_[1], r_[2])
+            if r_ is None:
+                raise Inconclusive('value comparison not decidable exactly')
+            return ZB(r_) if not isinstance(r_, bool) else z3.BoolVal(r_)
+        return z3.And(z3.Not(cmpc('Eq', 0.0)), cmpc('Gt', 1.0 / t))
     if isinstance(val, (F64Exact, F64Dec, F64Recip)):
         r = val.compare_const('Lt', t)
         if isinstance(r, tuple):
@@ -57,6 +72,9 @@ def worker(ck: Check, job):
     k = 3 if quick else 4
     reps, classes = stream_alphabet(ck, code, quick)
     reps = [r for r in reps if r not in ('12',)]
+    if quick and code == 'en':
+        # English has the largest alphabet (26 behaviour classes); the quick tier keeps one word per role of the policy
+        reps = [r for r in reps if r in EN_QUICK]
     st = Stream(code, reps, k)
     mir, res, th, mh = load_mir()
     # token attributes of the policy oracle (from the property statement; the linking-word set is the language's
@@ -157,7 +175,8 @@ def worker(ck: Check, job):
         return None
     split = [z3.And(st.w[0] == j, st.w[1] == j2) for j in range(len(reps)) for j2 in range(len(reps))]
     ck.prove_none(name, st.assm, guard(cov, bad), on_cex, block, case_split=split)
-    ck.cover(name + ':held-and-dropped', st.assm + [z3.UGT(n0, nt)], lambda m: {'lang': code, 'tokens': [t[0] for t in st.concrete(m)]})
+    if not hide_nothing:
+        ck.cover(name + ':held-and-dropped', st.assm + [z3.UGT(n0, nt)], lambda m: {'lang': code, 'tokens': [t[0] for t in st.concrete(m)]})
     ck.cover(name + ':kept', st.assm + [z3.UGE(nt, 2)], lambda m: {'lang': code, 'tokens': [t[0] for t in st.concrete(m)]})
     ck.bounds['stream_words'] = k
     ck.per_lang[code] = {'behaviour_classes_used': len(reps)}
